@@ -25,7 +25,9 @@ SHAPE = {
              [("shape_wctor.cpp", ["-DVK_WHICH=0"], "optional"), ("shape_wctor.cpp", ["-DVK_WHICH=1"], "optional")],
 }
 
-ENGINES = {"hist": HIST, "reject": REJECT, "shape": SHAPE}
+PATHS = {"name": "paths", "units": [("paths.cpp", [])]}
+
+ENGINES = {"hist": HIST, "reject": REJECT, "shape": SHAPE, "paths": PATHS}
 
 ASSUME_COMMON = [
     "the g++ 12 / libstdc++ toolchain, AddressSanitizer and UBSan report what they are documented to report",
@@ -209,6 +211,53 @@ def run_shape(prop, tier, seed):
     return V.conclude(prop, tier, seed, plan["level"], res, coverage, ASSUME_COMMON, plan["floors"], t0)
 
 
+PATHS_PLAN = {
+    "C11": dict(level="exploration",
+                rule="every directed graph with loops on n<=3 (n<=4 thorough) and undirected on n<=4 (n<=5), each in two insertion orders, seeded random graphs on 4-14 "
+                     "vertices, and tie-rich families (layered, grid, complete DAG, clique with loops, complete bipartite, cycle with chords); for EVERY source (and "
+                     "every destination): reference BFS distances; single predecessor is an in-neighbour one hop closer; all-predecessor list equals the set of such "
+                     "in-neighbours without repeats (empty for source/unreachable); findGeodesics / FromVertex paths walked edge by edge with the right length, [s] for "
+                     "the source, empty when unreachable; findAllGeodesics / FromVertex compared AS SETS with a brute-force enumeration of all shortest paths (no "
+                     "duplicates, none missing). Searches run on a scan-counting wrapper graph type, so a non-terminating search is a verdict",
+                floors={"sources": 8000, "source_destination_pairs": 30000, "all_shortest_path_sets_compared": 30000, "pairs_with_several_shortest_paths": 2000,
+                        "unreachable_pairs": 3000, "paths_validated_edge_by_edge": 50000}),
+    "C12": dict(level="exploration",
+                rule="graph space of C11 on DirectedWeightedGraph / UndirectedWeightedGraph with weights from {0,1,2,3} (ties, zero cycles), dyadic k/16, all-zero, and "
+                     "random non-negative doubles (exhaustive topologies on n<=3 get all four alphabets); every source: distances compared with Bellman-Ford (exactly for "
+                     "the exact alphabets, 1e-9 relative otherwise), dist[s]=0, pred[s]=s, unreachable = +inf with sentinel predecessor, and for every reached v!=s an "
+                     "edge (pred,v) with dist[v]=dist[pred]+w",
+                floors={"dijkstra_runs": 8000, "dijkstra_tree_edges_checked": 15000, "dijkstra_tree_edges_of_weight_zero": 1500, "weight_alphabet_all_zero": 300}),
+    "C19": dict(level="exploration",
+                rule="work counters: wrapper graph types derive from the real classes and shadow getOutNeighbours with a counter that throws at bound+1; bounds exactly "
+                     "as stated: findVertexPredecessors <= V, findAllVertexPredecessors <= V+E, findGeodesicsDijkstra <= V+E+1 (E = total neighbour-list length). "
+                     "Families with exponentially many shortest paths (layered graphs of width 2-4 and depth up to 40: up to 4^40 paths; grids up to 12x12), complete "
+                     "DAGs, cliques with loops, bipartite, cycles with chords, directed and undirected, and seeded random graphs on 5-40 vertices; Dijkstra additionally "
+                     "with all-zero weights, {0,1,2,3} and dyadic weights; every source (8 sampled sources above 40 vertices). Results are cross-checked with the "
+                     "reference BFS / Bellman-Ford on the same run",
+                floors={"scan_bound_checks": 20000, "searches_from_sources_with_over_1e6_shortest_paths": 200, "dijkstra_runs": 5000}),
+}
+
+
+def run_paths(prop, tier, seed):
+    import subprocess
+    t0 = time.time()
+    plan = PATHS_PLAN[prop]
+    binary = V.build_engine(PATHS, "asan")
+    total = int(subprocess.run([binary, "--prop", prop, "--tier", tier, "--mode", "count"], capture_output=True, text=True, env=dict(os.environ, **V.SAN_ENV)).stdout.strip())
+    res = V.run_sharded(prop, binary, [], total, seed, tier, V.NCPU, 900 if tier == "quick" else 10800, replay_dir(prop), tag="paths-" + prop)
+    c = res.counters
+    coverage = {
+        "evaluations": int(total),
+        "distinct_nontrivial": res.n_distinct(),
+        "rule": plan["rule"],
+        "samples": sample_list(res.samples),
+        "counters": {k: v for k, v in sorted(c.items())},
+        "build": "g++ -O1 -fsanitize=address,undefined -fno-sanitize-recover=all -D_GLIBCXX_ASSERTIONS",
+        "exhaustive": False,
+    }
+    return V.conclude(prop, tier, seed, plan["level"], res, coverage, ASSUME_COMMON, plan["floors"], t0)
+
+
 TITLES = {}
 for line in open(os.path.join(V.VERIF, "properties.jsonl")):
     d = json.loads(line)
@@ -221,6 +270,8 @@ for p in HIST_PLAN:
 
 for p in SHAPE_PLAN:
     PROPS[p] = {"title": TITLES[p], "run": run_shape, "engines": [("shape", "asan")]}
+for p in PATHS_PLAN:
+    PROPS[p] = {"title": TITLES[p], "run": run_paths, "engines": [("paths", "asan")]}
 PROPS["C07"] = {"title": TITLES["C07"], "run": run_c07, "engines": [("reject", "asan")]}
 
 
